@@ -107,11 +107,14 @@ class World:
             assert method == "scantxoutset"
             return json.loads(json.dumps(reply))
 
+        from .eccrig import det_rng
+
         orig = bits.rpc.rpc_method
         bits.rpc.rpc_method = fake
         try:
-            raw = bits.tx.send_tx(self.keys[a]["addr"], self.keys[b]["addr"], sender_keys=[self.keys[a]["wif"]], sighash_flag=1,
-                                  send_fraction=num / den, miner_fee=self.fee, version=2, rpc_url="x")
+            with det_rng(("scenario", len(self.sends), a, b, num, den, total)):      # nonces: a function of the behaviour
+                raw = bits.tx.send_tx(self.keys[a]["addr"], self.keys[b]["addr"], sender_keys=[self.keys[a]["wif"]], sighash_flag=1,
+                                      send_fraction=num / den, miner_fee=self.fee, version=2, rpc_url="x")
         finally:
             bits.rpc.rpc_method = orig
         self.mempool.append(raw)
